@@ -146,6 +146,9 @@ func c11Up(name string, seq []msg, batches []int, injection bool, pb int) vx.Sce
 		Setup: func(s *vs.Sched) func(*vs.Result) vx.Exec {
 			w := newWorld(injection)
 			var results []*callResult
+			// every data post carries request headers of its own: what is injected into a message must
+			// come from the post that carried it
+			hdrOf := make([]map[string]string, len(seq))
 			s.Thread("client", func() {
 				res := w.call("open", "ws://client.example/sock", nil)
 				results = append(results, res)
@@ -154,14 +157,19 @@ func c11Up(name string, seq []msg, batches []int, injection bool, pb int) vx.Sce
 				}
 				json.Unmarshal([]byte(res.body), &o)
 				i := 0
-				for _, n := range batches {
+				for bi, n := range batches {
+					hdr := map[string]string{"X-Inj": fmt.Sprintf("v%d", bi+1), "X-Own": "client"}
+					if bi%2 == 0 {
+						hdr[fmt.Sprintf("X-Only-%d", bi)] = "once"
+					}
 					var post []map[string]interface{}
 					for k := 0; k < n; k++ {
 						post = append(post, map[string]interface{}{"id": o.ID, "msg": seq[i].wire()})
+						hdrOf[i] = hdr
 						i++
 					}
 					b, _ := json.Marshal(post)
-					results = append(results, w.call("data", string(b), map[string]string{"X-Inj": "v1", "X-Own": "client"}))
+					results = append(results, w.call("data", string(b), hdr))
 				}
 			})
 			s.DaemonThread("backend", func() {
@@ -211,7 +219,7 @@ func c11Up(name string, seq []msg, batches []int, injection bool, pb int) vx.Sce
 						continue
 					}
 					if injection && !m.binary && injectable(m.data) {
-						if why := injectedOK(m.data, g.Data, map[string]string{"X-Inj": "v1", "X-Own": "client"}); why != "" {
+						if why := injectedOK(m.data, g.Data, hdrOf[i]); why != "" {
 							x.Violations = append(x.Violations, fmt.Sprintf("INJECT: message %d: %s (sent %q got %q)", i, why, clip(string(m.data)), clip(string(g.Data))))
 						}
 						continue
@@ -297,6 +305,12 @@ func c11Down(name string, seq []msg, pollAfter []int, pb int) vx.Scenario {
 // and the client only starts polling once the agent has noticed the close: what
 // was sent before the close must still be delivered.
 func c11DownClose(name string, seq []msg, pollAfter []int, thenClose bool, pb int) vx.Scenario {
+	return c11DownCloseData(name, seq, pollAfter, thenClose, false, pb)
+}
+
+// c11DownCloseData: with dataFirst the client posts a message to the (closed) session before its first
+// poll after the close: the post is refused, the queued server messages are still delivered.
+func c11DownCloseData(name string, seq []msg, pollAfter []int, thenClose, dataFirst bool, pb int) vx.Scenario {
 	return vx.Scenario{Name: name, PB: pb, MaxSteps: 20000, MaxTime: 5 * time.Minute,
 		Setup: func(s *vs.Sched) func(*vs.Result) vx.Exec {
 			w := newWorld(false)
@@ -325,6 +339,11 @@ func c11DownClose(name string, seq []msg, pollAfter []int, thenClose bool, pb in
 					if thenClose && n >= len(seq) {
 						vs.Wait("client: backend has closed", unsafe.Pointer(w), func() bool { return sent > len(seq) })
 						vs.Quiesce()
+						if dataFirst {
+							b, _ := json.Marshal([]map[string]interface{}{{"id": o.ID, "msg": "too late"}})
+							w.call("data", string(b), nil)
+							vs.Quiesce()
+						}
 					}
 					poll()
 				}
@@ -464,6 +483,7 @@ func c11Scenarios(th bool) []vx.Scenario {
 		out = append(out, c11DownClose(fmt.Sprintf("c11/down-then-close/[%d]", i), []msg{m}, []int{1}, true, pb))
 		out = append(out, c11DownClose(fmt.Sprintf("c11/down-then-close/[%d 0]/poll@1", i), []msg{m, al[0]}, []int{1}, true, pb))
 		out = append(out, c11DownClose(fmt.Sprintf("c11/down-then-close/[0 %d]/poll@2", i), []msg{al[0], m}, []int{2}, true, pb))
+		out = append(out, c11DownCloseData(fmt.Sprintf("c11/down-then-close/[0 %d]/data-then-poll@2", i), []msg{al[0], m}, []int{2}, true, true, 0))
 	}
 	// sessions opened at the same time: each side only ever gets its own session's messages
 	for _, pp := range [][]string{{"a", "b"}, {"a", "fail1"}, {"a", "b", "c"}} {
@@ -477,6 +497,7 @@ func c11Scenarios(th bool) []vx.Scenario {
 	for i, m := range al {
 		out = append(out, c11Up(fmt.Sprintf("c11/inject/[%d]", i), []msg{m}, []int{1}, true, 0))
 		out = append(out, c11Up(fmt.Sprintf("c11/inject/[3 %d]", i), []msg{al[3], m}, []int{2}, true, 0))
+		out = append(out, c11Up(fmt.Sprintf("c11/inject/[3 %d 3]/three-posts", i), []msg{al[3], m, al[3]}, []int{1, 1, 1}, true, 0))
 	}
 	// more than the 10-slot queues
 	for _, n := range []int{11, 12, 25} {
